@@ -188,12 +188,18 @@ SHAPES = ["rect", "rrect", "circle", "ellipse", "line", "polyline", "polygon", "
           "rect-tf", "circle-tf", "polygon-tf", "line-tf", "path-tf"]
 
 
+CONTINUE = ["z l 1,1", "l 2,0 z h1", "t 3,1 Z m1,1 h2"]
+# right operands with two and three subpaths of their own
+MULTI_B = ["M1,2 l3,4 M5,5 l1,0", "m1,2 l3,4 m1,1 h4 m2,2 v1", "M1,2 h3 v3 z M8,8 h-2 v-2"]
+
+
 class Concatenation(SubCheck):
     """Path(a) + Path(b'), a + Path(b') (radd), Path(a) + shape, p.append(b'), p.extend(b'): b' begins with a move"""
     name = "concat"
 
     def __init__(self, svg, tier, seed):
         self.svg = svg
+        self.tier = tier
         self.builder = pc.Builder(seed)
         self.builder_b = pc.Builder(seed + 1)
         self.aspace = pc.spec_space(2, 0)
@@ -202,7 +208,7 @@ class Concatenation(SubCheck):
         # a's subpath start (the coincidences a "redundant move" shortcut would test for)
         nb = len(self.bspace)
         self.p = Concat(Product(range(len(self.aspace)), range(nb), ["own", "at-current", "at-start"]),
-                        Product(range(len(self.aspace)), range(nb, nb + len(SHAPES)), ["own"]))
+                        Product(range(len(self.aspace)), range(nb, nb + len(SHAPES) + len(MULTI_B)), ["own"]))
         self.bounds = dict(a_depth=2, b_depth=2 if tier == "thorough" else 1, shapes=len(SHAPES),
                            placement=["own", "at-current", "at-start"])
 
@@ -219,6 +225,8 @@ class Concatenation(SubCheck):
                 pt = st[0] if place == "at-current" else st[1]
                 pieces = ["M %r,%r" % (float(pt[0]), float(pt[1]))] + list(pieces[1:])
             return {"a": a, "b": " ".join(pieces), "shape": None, "place": place}
+        if bi >= len(self.bspace) + len(SHAPES):
+            return {"a": a, "b": MULTI_B[bi - len(self.bspace) - len(SHAPES)], "shape": None, "place": place}
         return {"a": a, "b": None, "shape": SHAPES[bi - len(self.bspace)], "place": place}
 
     def make_shape(self, kind):
@@ -289,10 +297,32 @@ class Concatenation(SubCheck):
         except Exception as e:  # noqa
             out.fail("concatenation raised %s" % type(e).__name__, None, repr(e), kind="exception")
             return out
-        for entry, res in results:
+        checks = [(entry, [pc.impl_seg_dict(s) for s in res], expected, "concat") for entry, res in results]
+        other_after = [pc.impl_seg_dict(s) for s in other] if case["shape"] is None else None
+        # ... and the very object that came out of the concatenation is then continued in place with data that closes:
+        # the close (and what follows it) belongs to the LAST subpath of the right operand
+        # (reference: the right operand on its own, continued with the same data - its own coordinates are what the
+        # concatenation keeps; continuing a single path is what the splits sub-check decides against the grammar)
+        for ci, cont in enumerate(CONTINUE):
+            ref = Path(case["b"]) if case["shape"] is None else Path(self.make_shape(case["shape"]).d())
+            ref += cont
+            want = expected[:len(pa)] + [pc.impl_seg_dict(s) for s in ref]
+            for entry, res in results:
+                if ci != (len(entry) + len(a)) % len(CONTINUE) and self.tier != "thorough":
+                    continue
+                q = res if ci == len(CONTINUE) - 1 or self.tier != "thorough" else Path(res)
+                try:
+                    if ci % 2:
+                        q.parse(cont)
+                    else:
+                        q += cont
+                except Exception as e:  # noqa
+                    out.fail("continuing the concatenation raised %s" % type(e).__name__, None, repr(e), kind="exception")
+                    continue
+                checks.append((entry + " then " + cont, [pc.impl_seg_dict(s) for s in q], want, "concat-continued"))
+        for entry, got, expected, kind in checks:
             out.transitions += 1
             out.traces += 1
-            got = [pc.impl_seg_dict(s) for s in res]
             ok = len(got) == len(expected)
             if ok:
                 for g, e in zip(got, expected):
@@ -316,13 +346,13 @@ class Concatenation(SubCheck):
                             ok = False
             if not ok:
                 out.fail("%s: concatenation does not draw both geometries unchanged" % entry, expected, got,
-                         kind="concat", entry=entry)
+                         kind=kind, entry=entry)
         # operands untouched
         if [pc.impl_seg_dict(s) for s in pa] != [pc.impl_seg_dict(s) for s in Path(a)]:
             out.fail("Path(a) + other modified a", kind="operand-mutated", entry="add")
-        if case["shape"] is None and [pc.impl_seg_dict(s) for s in other] != [pc.impl_seg_dict(s) for s in bsegs]:
+        if case["shape"] is None and other_after != [pc.impl_seg_dict(s) for s in bsegs]:
             out.fail("Path(a) + other modified other", kind="operand-mutated", entry="add")
-        out.states.append((expected[len(pa) - 1]["end"], first_b))
+        out.states.append((checks[0][2][len(pa) - 1]["end"], first_b))
         return out
 
 
